@@ -103,7 +103,7 @@ def to_schedule(sid, hist, convs=(), settle=True):
         if e["a"] == "Restart" and convs and ei % 3 == 1:
             # the instant of the kill is the harness' choice: here inside the append of a converter cache record
             st["what"], st["cut"] = "cache", ei * 7
-        if e["a"] == "ConvReset":
+        if e["a"] in ("ConvReset", "ConvRemove", "ConvAdd"):
             st["convs"] = list(e["convs"])
         if e["a"] == "UpdName":
             st["name"] = e["name"]
@@ -265,7 +265,8 @@ GEN = {
     "C13": ({"TagNames": '{"tag/a"}', "ConvNames": "{}", "MaxCalls": 8, "MaxViews": 3, "Menu": '"files"', "Invalid": "FALSE"}, 40),
     "C12": ({"TagNames": '{"tag/a", "tag/b", "mark/m"}', "ConvNames": '{"cv"}', "MaxCalls": 12, "MaxViews": 1, "Menu": '"conv"', "Invalid": "FALSE", "Crashes": "TRUE",
              "Restarts": "TRUE", "Extra": '{"rename", "color", "settings"}'}, 50),
-    "C16": ({"TagNames": '{"tag/a", "tag/b", "mark/m"}', "ConvNames": '{"cv"}', "MaxCalls": 10, "MaxViews": 1, "Menu": '"conv"', "Invalid": "FALSE", "Crashes": "TRUE"}, 48),
+    "C16": ({"TagNames": '{"tag/a", "tag/b", "mark/m"}', "ConvNames": '{"cv"}', "MaxCalls": 10, "MaxViews": 1, "Menu": '"conv"', "Invalid": "FALSE", "Crashes": "TRUE",
+             "Extra": '{"convdir"}'}, 48),
 }
 # C20 only: webhook / endpoint / config / rename / colour calls next to imports and tagging
 GEN["settings"] = ({"TagNames": '{"tag/a", "tag/b"}', "ConvNames": "{}", "MaxCalls": 12, "MaxViews": 1, "Menu": '"files"', "Invalid": "FALSE",
@@ -303,7 +304,11 @@ MC = {
              ["MCViewComplete", "NameOrderIsServeOrder", "NeverStale", "Balanced", "NoUseAfterFree", "NeverStuck", "FlagsMatchJobs",
               "OneIdPerConn", "PROPERTY:StreamsKeptProp"])],
     "C16": [("conv", {"TagNames": '{"tag/a"}', "ConvNames": '{"cv"}', "MaxCalls": 3, "MaxViews": 0, "Menu": '"conv"', "Invalid": "FALSE"},
-             ["ConvFreshAtRest", "ConvEventually", "NeverStuck", "FlagsMatchJobs"])],
+             ["ConvFreshAtRest", "ConvEventually", "NeverStuck", "FlagsMatchJobs"]),
+            # the converter directory changes while jobs run: executable removed (detached everywhere, cache dropped) and added again
+            ("convdir", {"TagNames": '{"tag/a"}', "ConvNames": '{"cv"}', "MaxCalls": 4, "MaxViews": 0, "Menu": '"conv"', "Invalid": "FALSE",
+                         "Extra": '{"convdir"}'},
+             ["ConvFreshAtRest", "ConvEventually", "NeverStuck", "FlagsMatchJobs", "Balanced", "NoUseAfterFree", "NeverStale"])],
 }
 
 # Invariants the faithful model is known to violate: each is a recorded known finding (KNOWN_FINDINGS.txt) that exists at design
